@@ -50,6 +50,8 @@ static void vf_did_pop(int now);
 static void vf_did_top(int top);
 static void vf_did_setbol(int v, int now);
 static void vf_did_return(void);
+static int vf_arg_line(void);
+static void vf_did_setline(int v, int now);
 
 #if !defined(VF_KEEP_ECHO) && !defined(VF_API_C99)
 #define yyecho() do { } while (0)
